@@ -124,7 +124,7 @@ Theorem c09_pipeline : forall c,
     | None => false
     | Some es =>
       out_wf c (CN es) (map (fun k => clevel_count k (CN es)) (seq 0 (out_depth c)))
-      && content_ok (k_d c) (op_img c) (ccontent (k_d c) (inj (k_tree c))) (ccontent (k_d c) (CN es))
+      && content_okg (op_mfn c) (k_d c) (op_img c) (ccontent (k_d c) (inj (k_tree c))) (ccontent (k_d c) (CN es))
     end.
 Proof.
   intros c. unfold c09_holds, c09_model, enc_res. f_equal.
